@@ -5,12 +5,17 @@ ACCEPTOR fed `case ++ [[-1]] ++ implementation output`.  Serves C01 (ranking hal
 Case format (lines of integers; a statement's label is its position among the statement lines):
   [1, end_time, exec]
   [2, label, kind, def, uniq, out_ty, has_sc, nsc, sc...]      node statement
-        kind 0 pull source, 1 compute, 2 sink, 3 push source, 4 feedback source, 5 feedback sink
+        kind 0 pull source, 1 compute, 2 sink, 3 push source, 4 feedback source, 5 feedback sink,
+             6 nested_<SinkAndOutG>(x) (a sub-graph with a counting sink and x+1 as output), 7 try_except_<SinkG>(x),
+             8 wire<PlusOne>(x): a STATIC node (its instances share one process-wide runtime node type)
   [3, label, slot, flags, ntp, tp..., SRC]                      one input of the node statement above
         flags bit 0: rank_dependency, bit 1: the source port carries the passive marker (`passive(port)`)
         SRC := 0 ref npath path.. | 1 ph npath path.. | 2 | 3 k SRC*k   (peered/delayed/null/structural)
-               | 6 ref 0   the hidden ERROR output of node ref (exception_time_series(port): activates error
-                           capture on the producing instance, then reads its error output)
+               | 6 ref opt the hidden ERROR output of node ref (exception_time_series(port, options): activates error
+                           capture on the producing instance, then reads its error output); opt bit 0 =
+                           capture_values, opt >> 1 = extra trace_back_depth
+  [14, label, code]                                             an extra FLOAT scalar field of the node statement above:
+                                                                0 -> 0.0, 1 -> -0.0, 2 -> 1.5, 3 -> -1.5
   [4, label, ty]                                                delayed_binding placeholder
   [5, label, ph, ref, npath, path..]                            bind placeholder ph to node ref's port
   [6, label, a, b]                                              add_rank_dependency(node a, depends_on b)
@@ -34,6 +39,7 @@ Implementation output per order k:
   [29,k,same]                     1 iff two more builds of the same wiring in this process (allocations in
                                   between) compiled the same node order
   [30,k,creators...]              compiled nodes that capture errors
+  [31,k,creator,depth,values]     the ErrorCaptureOptions in force on such a node's type
   [23,k,rep(label)...]  label of the statement whose node each node statement was merged into (-1: not a node)
   [21,k,n,creator label of node 0..n-1]     [22,k,src,srckind,tgt,nsp,sp..,ntp,tp..] compiled edges
   [24,k,sink label,t1,v1,...] stream seen by each sink   [25,k,creator,evals,...]   [26,k,1] run error
@@ -51,15 +57,16 @@ PROP_KINDS = {
     # never runs the node), for the node of EVERY statement that carries the marker
     "C03": {"passive_marker_not_in_key", "passive_marker_ignored"},
     "C01": {"order", "dep_order", "verdict", "push_prefix", "perm", "edges", "handover", "order_not_canonical"},
-    "C06": {"merge", "sink_merged", "streams", "evals", "perm", "verdict_varies", "count_varies", "passive_marker_not_in_key", "passive_marker_ignored", "handover", "order_not_canonical", "subgraph_merge"},
-    "C09": {"subgraph_merge"},
+    "C06": {"merge", "sink_merged", "streams", "evals", "perm", "verdict_varies", "count_varies", "passive_marker_not_in_key", "passive_marker_ignored", "handover", "order_not_canonical", "subgraph_merge",
+            "signed_zero_merged", "sink_body_merged_through_wrapper", "error_capture_options"},
+    "C09": {"subgraph_merge", "sink_body_merged_through_wrapper"},
 }
 
 
 # --------------------------------------------------------------------------- program <-> case
 def enc_src(s):
     if s[0] == "e":
-        return [6, s[1], 0]
+        return [6, s[1], s[2] if isinstance(s[2], int) else 0]
     if s[0] == "p":
         return [0, s[1], len(s[2])] + list(s[2])
     if s[0] == "d":
@@ -75,7 +82,7 @@ def enc_src(s):
 def dec_src(l, p):
     k = l[p]
     if k == 6:
-        return ("e", l[p + 1], ()), p + 3
+        return ("e", l[p + 1], l[p + 2]), p + 3
     if k in (0, 1):
         n = l[p + 2]
         return ("p" if k == 0 else "d", l[p + 1], tuple(l[p + 3:p + 3 + n])), p + 3 + n
@@ -95,6 +102,8 @@ def encode(prog, orders, end_time=12, exe=1):
     for lab, st in enumerate(prog):
         if st["t"] == "node":
             case.append([2, lab, st["kind"], st["def"], st["uniq"], st["out"], st["has_sc"], len(st["sc"])] + list(st["sc"]))
+            if st.get("fsc", -1) >= 0:
+                case.append([14, lab, st["fsc"]])
             for slot, i in enumerate(st["ins"]):
                 case.append([3, lab, slot, i["rank"] + 2 * i.get("passive", 0), len(i["tp"])] + list(i["tp"]) + enc_src(i["src"]))
         elif st["t"] == "place":
@@ -119,7 +128,9 @@ def decode(case):
             end_time, exe = l[1], l[2]
         elif l[0] == 2:
             prog.append({"t": "node", "kind": l[2], "def": l[3], "uniq": l[4], "out": l[5], "has_sc": l[6],
-                         "sc": tuple(l[8:8 + l[7]]), "ins": []})
+                         "sc": tuple(l[8:8 + l[7]]), "fsc": -1, "ins": []})
+        elif l[0] == 14 and prog and prog[-1]["t"] == "node":
+            prog[-1]["fsc"] = l[2]
         elif l[0] == 3 and prog and prog[-1]["t"] == "node":
             n = l[4]
             s, _ = dec_src(l, 5 + n)
@@ -270,7 +281,7 @@ def _scalars(rng):
 
 
 def _node(kind, d, out, has_sc=0, sc=(), ins=(), uniq=0):
-    return {"t": "node", "kind": kind, "def": d, "uniq": uniq, "out": out, "has_sc": has_sc, "sc": tuple(sc),
+    return {"t": "node", "kind": kind, "def": d, "uniq": uniq, "out": out, "has_sc": has_sc, "sc": tuple(sc), "fsc": -1,
             "ins": [dict(i) for i in ins]}
 
 
@@ -286,7 +297,7 @@ def gen_program(rng, tier, prop):
     def add(st):
         prog.append(st)
         l = len(prog) - 1
-        if st["t"] == "node" and st["out"] != 0 and st["kind"] != 5:
+        if st["t"] == "node" and st["out"] != 0 and st["kind"] not in (5, 6, 7, 8):
             vals.append(l)
             ty[l] = 2 if st["out"] == 2 else 1
         return l
@@ -331,6 +342,8 @@ def gen_program(rng, tier, prop):
         feats.add("errport")
     if rng.random() < 0.25:
         feats.add("passive_deep")
+    if rng.random() < 0.15:
+        feats.add("wrapper")
     if rng.random() < 0.04:
         feats.add(rng.choice(["unbound", "rebind", "selfdep", "pushdep", "unbound_free", "allpassive"]))
     dup_rate = 0.35 if prop == "C06" else 0.15
@@ -414,7 +427,7 @@ def gen_program(rng, tier, prop):
         if rng.random() < dup_rate:
             st = prog[l]
             c = _node(1, st["def"], st["out"], st["has_sc"], st["sc"], st["ins"])
-            how = rng.choice(["same", "same", "same", "scalar", "swap", "type", "def", "tp", "uniq", "rank", "hassc", "nsc", "input",
+            how = rng.choice(["same", "same", "same", "signzero", "fscalar", "scalar", "swap", "type", "def", "tp", "uniq", "rank", "hassc", "nsc", "input",
                               "passive", "passive"])
             if how == "scalar" and c["sc"]:
                 k = rng.randrange(len(c["sc"]))
@@ -440,6 +453,12 @@ def gen_program(rng, tier, prop):
                 # legitimately depend on the insertion-order tie-break.
                 c["ins"][-1]["rank"] = 0
                 pin = c["ins"][-1]["src"][1]
+            elif how in ("signzero", "fscalar"):
+                # the pair differs ONLY in a float scalar: 0.0 vs -0.0 (IEEE-equal, different reciprocals) / 1.5 vs -1.5
+                a, b = (0, 1) if how == "signzero" else (2, 3)
+                if rng.random() < 0.5:
+                    a, b = b, a
+                st["fsc"], c["fsc"] = a, b
             elif how == "passive":
                 # the pair differs ONLY in the passive marker of one input (and keeps another input active)
                 act = [k for k, i in enumerate(c["ins"]) if i["rank"] and not i.get("passive")]
@@ -457,7 +476,7 @@ def gen_program(rng, tier, prop):
                 c["ins"][0]["rank"] = 1
             lc = add(c)
             made.append(lc)
-            if how == "passive":      # observe both members of the pair directly
+            if how in ("passive", "signzero", "fscalar"):      # observe both members of the pair directly
                 add(_node(2, 0, 0, ins=[_inp(("p", l, ()))]))
                 add(_node(2, 1, 0, ins=[_inp(("p", lc, ()))]))
             if ph_free is not None and any(i["rank"] == 0 and ph_free in src_refs(i["src"])[1] for i in c["ins"]):
@@ -535,6 +554,18 @@ def gen_program(rng, tier, prop):
             add({"t": "dep", "a": b, "b": a})     # later node after earlier node: consistent with the canonical order
             if rng.random() < 0.3:
                 add({"t": "dep", "a": b, "b": a})   # duplicate: de-duplicated by the code
+    # sub-graph wrappers around a sink, wired twice on the same input (and once on another)
+    if "wrapper" in feats:
+        ints = [v for v in vals if ty[v] == 1 and prog[v]["kind"] in (0, 1)]
+        if ints:
+            x = rng.choice(ints)
+            for kind in rng.sample([6, 7], rng.choice([1, 2])):
+                ws = [add(_node(kind, 0, 1, ins=[_inp(("p", x, ()))])) for _ in range(rng.choice([2, 2, 3]))]
+                if len(ints) > 1:
+                    ws.append(add(_node(kind, 0, 1, ins=[_inp(("p", rng.choice([v for v in ints if v != x]), ()))])))
+                if kind == 6:
+                    for wl in ws:
+                        add(_node(2, 0, 0, ins=[_inp(("p", wl, ()))]))
     # passive markers do not loosen the ranking: a reader whose passive input's producer sits at the end of a
     # longer chain (its active input is ready early), is wired later (placeholder), or closes a cycle
     if "passive_deep" in feats:
@@ -580,18 +611,28 @@ def gen_program(rng, tier, prop):
             deep2 = compute([_inp(("p", deep, ()))])
             made += [deep, deep2]
             early = rng.choice([v for v in vals if prog[v]["kind"] == 0] or vals)
-            src_e = ("e", deep2, ())
-            if rng.random() < 0.3:
-                src_e = ("s", (("n",), ("p", early, ()))) if False else src_e
+            src_e = ("e", deep2, rng.randrange(0, 4))
             errc = compute([_inp(("p", early, ())), _inp(src_e)], out=1)
             made.append(errc)
+            if rng.random() < 0.5:                                         # a second reader asking for other options
+                made.append(compute([_inp(("p", early, ())), _inp(("e", deep2, rng.randrange(0, 6)))], out=1))
             st = prog[deep2]
             q = add(_node(1, st["def"], st["out"], st["has_sc"], st["sc"], st["ins"]))   # duplicate AFTER the capture
             made.append(q)
             add(_node(2, 0, 0, ins=[_inp(("p", q, ()))]))
             add(_node(2, 1, 0, ins=[_inp(("p", errc, ()))]))
             if rng.random() < 0.5:
-                add(_node(2, 0, 0, ins=[_inp(("e", deep2, ()))]))          # a sink on the error output itself
+                add(_node(2, 0, 0, ins=[_inp(("e", deep2, rng.randrange(0, 4)))]))   # a sink on the error output itself
+            # two instances of ONE static definition whose error outputs are read with DIFFERENT capture options: they
+            # share a process-wide node type only if everything - the options included - agrees
+            ints = [v for v in vals if ty[v] == 1 and prog[v]["kind"] in (0, 1)]
+            if len(ints) >= 2 and rng.random() < 0.6:
+                xa, xb = rng.sample(ints, 2)
+                oa, ob = rng.sample(range(0, 6), 2)
+                for xx, oo in ((xa, oa), (xb, ob)):
+                    st8 = add(_node(8, 0, 1, ins=[_inp(("p", xx, ()))]))
+                    add(_node(2, 0, 0, ins=[_inp(("p", st8, ()))]))
+                    add(_node(2, 1, 0, ins=[_inp(("p", early, ())), _inp(("e", st8, oo))]))
     # service rank contract: a hub (anchor) with >= 2 DISTINCT sending and >= 2 distinct receiving clients per
     # path.  The receivers are wired BEFORE the hub and the senders AFTER it, i.e. on the wrong side by insertion
     # order; all of them tick with one common source so that the hand-over of a cycle is observable.
@@ -696,7 +737,7 @@ def gen_program(rng, tier, prop):
 
 
 def marker_free(st):
-    return (st["kind"], st["def"], st["uniq"], st["out"], st["has_sc"], st["sc"],
+    return (st["kind"], st["def"], st["uniq"], st["out"], st["has_sc"], st["sc"], st.get("fsc", -1),
             tuple((i["rank"], i["tp"], i["src"]) for i in st["ins"]))
 
 
@@ -781,8 +822,12 @@ def parse_out(out):
             d.setdefault("active", {})[l[2]] = tuple(l[3:])
         elif l[0] == 29:
             d["stable"] = l[2]
+        elif l[0] == 32:
+            d["sink_body_runs"] = l[2]
         elif l[0] == 30:
             d["captured"] = tuple(l[2:])
+        elif l[0] == 31:
+            d.setdefault("capture_options", {})[l[2]] = (l[3], l[4])
         elif l[0] == 28:
             d.setdefault("children", {})[l[2]] = (l[3], dict(zip(l[4::2], l[5::2])))
     return res
@@ -797,8 +842,25 @@ def bypasses(st):
     return st["out"] == 0 or st["uniq"] == 1 or st["kind"] in (3, 4, 5)
 
 
+def err_sources(s):
+    if s[0] == "e":
+        return [s]
+    if s[0] == "s":
+        return [x for c in s[1] for x in err_sources(c)]
+    return []
+
+
 def src_has_err(s):
     return s[0] == "e" or (s[0] == "s" and any(src_has_err(c) for c in s[1]))
+
+
+def src_noopt(s):
+    """the ErrorCaptureOptions a reader asks for act on the PRODUCER; they are not part of the reader's identity"""
+    if s[0] == "e":
+        return ("e", s[1], 0)
+    if s[0] == "s":
+        return ("s", tuple(src_noopt(c) for c in s[1]))
+    return s
 
 
 def src_map(s, f):
@@ -812,8 +874,8 @@ def src_map(s, f):
 def config(st, rep):
     """everything the property says distinguishes two nodes: definition, resolved type, scalars, inputs
     (by identity of the producing node, path, target slot, rank flag)"""
-    return (st["def"], st["out"] if st["out"] in (0, 2) else 1, st["has_sc"], st["sc"] if st["has_sc"] else (),
-            tuple((src_map(i["src"], lambda x: rep[x] if 0 <= x < len(rep) else -7), i["tp"] or (k,), i["rank"])
+    return (st["def"], st["out"] if st["out"] in (0, 2) else 1, st["has_sc"], st["sc"] if st["has_sc"] else (), st.get("fsc", -1),
+            tuple((src_noopt(src_map(i["src"], lambda x: rep[x] if 0 <= x < len(rep) else -7)), i["tp"] or (k,), i["rank"])
                   for k, i in enumerate(st["ins"])))
 
 
@@ -971,6 +1033,20 @@ def oracle(prop, case, out):
             if is_node(st) and 0 <= r < len(prog) and r != l and is_node(prog[r]) and markers(st) != markers(prog[r]) \
                     and len(st["ins"]) == len(prog[r]["ins"]):
                 marker_pairs.add((min(l, r), max(l, r)))
+    zero_pairs = set()
+    for k in range(len(orders)):
+        o = obs.get(k)
+        if o is None or o["reps"] is None:
+            continue
+        rp = list(o["reps"]) + [-1] * (len(prog) - len(o["reps"]))
+        for l, st in enumerate(prog):
+            r = rp[l]
+            if is_node(st) and 0 <= r < len(prog) and r != l and is_node(prog[r]) and \
+                    {st.get("fsc", -1), prog[r].get("fsc", -1)} == {0, 1}:
+                zero_pairs.add((min(l, r), max(l, r)))
+    for (a, b) in sorted(zero_pairs):
+        fails.append(("signed_zero_merged", "statements %d and %d differ in a scalar (0.0 vs -0.0: their reciprocals are +inf and "
+                      "-inf) but share one node" % (a, b)))
     for (a, b) in sorted(marker_pairs):
         fails.append(("passive_marker_not_in_key",
                       "statements %d and %d differ in the passive marker of an input but share one node" % (a, b)))
@@ -1016,8 +1092,15 @@ def oracle(prop, case, out):
                 fails.append(("merge", "order %d: statement %d mapped to %d which is not a node's own statement" % (k, l, r)))
                 continue
             if r != l:
-                if bypasses(prog[l]) or bypasses(prog[r]):
+                if prog[l]["kind"] in (6, 7) and prog[r]["kind"] == prog[l]["kind"] and config(prog[l], rep) == config(prog[r], rep):
+                    fails.append(("sink_body_merged_through_wrapper",
+                                  "order %d: statements %d and %d (%s around a sub-graph with a sink) share one node: the sink body "
+                                  "runs once per tick instead of once per statement" % (k, l, r, "nested_" if prog[l]["kind"] == 6 else "try_except_")))
+                elif bypasses(prog[l]) or bypasses(prog[r]):
                     fails.append(("sink_merged", "order %d: statement %d (sink/unique) shares the node of %d" % (k, l, r)))
+                elif {prog[l].get("fsc", -1), prog[r].get("fsc", -1)} == {0, 1} and \
+                        config(dict(prog[l], fsc=0), rep) == config(dict(prog[r], fsc=0), rep):
+                    pass    # reported as signed_zero_merged above
                 elif config(prog[l], rep) != config(prog[r], rep):
                     fails.append(("merge", "order %d: statements %d and %d differ but share one node" % (k, l, r)))
         # ---- C01: rejected iff an unbroken cycle (rank edges of the program, DFS)
@@ -1047,6 +1130,21 @@ def oracle(prop, case, out):
                 if tuple(act) != want:
                     fails.append(("passive_marker_ignored", "order %d: node of statement %d has active inputs %s, its statement asks for %s "
                                   "(passive markers %s)" % (k, c, list(act), list(want), [i.get("passive", 0) for i in prog[c]["ins"]])))
+        # the error-capture options in force on a compiled node are what the statements reading its error output ask
+        # for (depth: the deepest request; values: captured if any reader asks), whatever else the process wired before
+        asked = {}
+        for l in orders[k]:
+            st = prog[l]
+            if is_node(st):
+                for i in st["ins"]:
+                    for e in err_sources(i["src"]):
+                        c = rep[e[1]]
+                        d0, v0 = asked.get(c, (1, 0))
+                        asked[c] = (max(d0, 1 + (e[2] >> 1)), v0 | (e[2] & 1))
+        for c, got in (o.get("capture_options") or {}).items():
+            if c in asked and tuple(got) != asked[c]:
+                fails.append(("error_capture_options", "order %d: node of statement %d captures errors with (trace depth, values) = %s, its "
+                              "readers ask for %s" % (k, c, tuple(got), asked[c])))
         want_order = canonical_order(prog, orders[k], rep)
         if want_order is not None and list(nodes) != want_order:
             d = next(i for i, (a, b) in enumerate(zip(nodes, want_order)) if a != b)
@@ -1100,11 +1198,11 @@ def oracle(prop, case, out):
             else:
                 if o["streams"] != ref_streams:
                     bad = [s for s in ref_streams if o["streams"].get(s) != ref_streams[s]]
-                    fails.append(("passive_marker_not_in_key" if marker_pairs else "handover" if has_service else "streams",
+                    fails.append(("passive_marker_not_in_key" if marker_pairs else "signed_zero_merged" if zero_pairs else "handover" if has_service else "streams",
                                   "order %d: sink %s saw a different stream than in order 0" % (k, bad[:4])
                                   + (" (a node combined a service hand-over of another cycle, or missed this cycle's)" if has_service else "")))
                 if ev != ref_evals:
-                    fails.append(("passive_marker_not_in_key" if marker_pairs else "evals",
+                    fails.append(("passive_marker_not_in_key" if marker_pairs else "signed_zero_merged" if zero_pairs else "evals",
                                   "order %d: evaluation counts differ from order 0" % k))
         elif exe and o["runerr"]:
             fails.append(("streams", "order %d: the built graph failed to run" % k))
@@ -1143,6 +1241,9 @@ def stats(case, out):
          "with_passive_marker": int(any(is_node(st) and any(i.get("passive") for i in st["ins"]) for st in prog)),
          "with_passive_marker_pair": int(bool(passive_pairs(prog))),
          "with_passive_on_late_producer": int(any(is_node(st) and any(i.get("passive") and i["rank"] and i["src"][0] == "d" for i in st["ins"]) for st in prog)),
+         "with_sink_wrapper": int(any(is_node(st) and st["kind"] in (6, 7) for st in prog)),
+         "with_float_scalar": int(any(is_node(st) and st.get("fsc", -1) >= 0 for st in prog)),
+         "with_signed_zero_pair": int(any(is_node(prog[a]) and is_node(prog[a + 1]) and {prog[a].get("fsc", -1), prog[a + 1].get("fsc", -1)} == {0, 1} for a in range(len(prog) - 1))),
          "with_error_port_reader": int(any(is_node(st) and any(src_has_err(i["src"]) for i in st["ins"]) for st in prog)),
          "with_capture_between_duplicates": int(bool(capture_swaps(prog))),
          "with_service_endpoint": int(any(st["t"] == "anchor" for st in prog)),
